@@ -6,6 +6,7 @@ import (
 	"strings"
 
 	"github.com/yuin/goldmark"
+	"github.com/yuin/goldmark/ast"
 	"github.com/yuin/goldmark/extension"
 	"github.com/yuin/goldmark/parser"
 	"github.com/yuin/goldmark/renderer"
@@ -50,6 +51,11 @@ type Spec struct {
 	// Rich2 (with Rich): the second option variant - Typographer with several substitutions *disabled* (nil), Linkify with
 	// its own regular expressions, Footnote with a prefix function and custom back-link HTML entity.
 	Rich2 bool
+	// Rich3 (with Rich): options that arrive by two routes with different values - the extension's constructor
+	// (NewFootnote(WithFootnoteIDPrefix("ext-"))) and goldmark.WithRendererOptions (the same option with "page7-", plus a
+	// prefix function) - the renderer-level value is the one in force, for every id the extension writes; the table align
+	// method likewise (constructor: attribute, renderer option: style).
+	Rich3 bool
 	// Direct: renderer flags are given to html.NewRenderer(...) itself, inside a caller-built renderer.NewRenderer, instead
 	// of goldmark.WithRendererOptions (core only: extension renderers receive options by name, not through this route).
 	Direct bool
@@ -118,6 +124,9 @@ func (s Spec) Name() string {
 	if s.Rich2 {
 		b.WriteString(",rich2")
 	}
+	if s.Rich3 {
+		b.WriteString(",rich3")
+	}
 	if s.Direct {
 		b.WriteString(",direct")
 	}
@@ -142,6 +151,9 @@ var (
 
 // FootnoteIDPrefix returns the id prefix the Footnote extension of this configuration is built with.
 func (s Spec) FootnoteIDPrefix() string {
+	if s.Rich && s.Rich3 {
+		return "page7-"
+	}
 	if s.Rich && s.FootnotePfx == "" {
 		return "doc-1-"
 	}
@@ -149,6 +161,10 @@ func (s Spec) FootnoteIDPrefix() string {
 }
 
 func (s Spec) footnote() goldmark.Extender {
+	if s.Rich && s.Rich3 {
+		return extension.NewFootnote(extension.WithFootnoteIDPrefix("ext-"), extension.WithFootnoteLinkTitle("note ^^ (%%)"),
+			extension.WithFootnoteBacklinkTitle("back to ^^ (%%)"), extension.WithFootnoteLinkClass("fn-link"), extension.WithFootnoteBacklinkClass("fn-back"))
+	}
 	if s.Rich {
 		pfx := s.FootnoteIDPrefix()
 		// the prefix is handed over as a byte slice with spare capacity, as a caller that builds it by appending would
@@ -295,6 +311,13 @@ func (s Spec) RendererOptions() []goldmark.Option {
 	if s.HardWraps {
 		out = append(out, goldmark.WithRendererOptions(html.WithHardWraps()))
 	}
+	if s.Rich && s.Rich3 {
+		out = append(out, goldmark.WithRendererOptions(extension.WithFootnoteIDPrefix("page7-"),
+			extension.WithFootnoteIDPrefixFunction(func(ast.Node) []byte { return []byte("fn-of-the-function-") })))
+		if !s.PinTableAlign {
+			out = append(out, goldmark.WithRendererOptions(extension.WithTableCellAlignMethod(extension.TableCellAlignStyle)))
+		}
+	}
 	return out
 }
 
@@ -387,6 +410,9 @@ func RichSpecs() []Spec {
 	out = append(out, Spec{Ext: ExtTypographer, Rich: true, Rich2: true}, Spec{Ext: ExtTypographer, Rich: true, Rich2: true, XHTML: true, Attribute: true},
 		Spec{Ext: ExtAll, Rich: true, Rich2: true, AutoHeadingID: true}, Spec{Ext: ExtGFM, Rich: true, Rich2: true, Unsafe: true},
 		Spec{Ext: ExtCore, Direct: true}, Spec{Ext: ExtCore, Direct: true, XHTML: true, HardWraps: true}, Spec{Ext: ExtCore, Direct: true, Unsafe: true, Attribute: true})
+	// options that arrive both through the extension's constructor and as renderer options
+	out = append(out, Spec{Ext: ExtFootnote, Rich: true, Rich3: true}, Spec{Ext: ExtAll, Rich: true, Rich3: true, XHTML: true, AutoHeadingID: true},
+		Spec{Ext: ExtGFM, Rich: true, Rich3: true})
 	return out
 }
 
@@ -482,6 +508,8 @@ func Parse(name string) (Spec, bool) {
 			s.Rich = true
 		case p == "rich2":
 			s.Rich2 = true
+		case p == "rich3":
+			s.Rich3 = true
 		case p == "direct":
 			s.Direct = true
 		default:
